@@ -296,6 +296,7 @@ type trWatcher struct {
 	NoEvents     bool  `json:"noEvents"`
 	PipeKinds    []int `json:"pipeKinds"`    // kinds kept in the consumer's first map (slot 0); others in slot 1
 	CreateChecks bool  `json:"createChecks"` // Supervisor.handleEvent refuses to create an existing name
+	Namespaced   bool  `json:"namespaced"`   // the consumer keeps its maps in a namespace object (_cleanSpace)
 }
 
 type trPanic struct {
@@ -327,6 +328,7 @@ type trStep struct {
 	Log    []trObsCall `json:"log"`
 	Live   []trEnt     `json:"live"`
 	Reg    []trEnt     `json:"reg"`
+	Ns     int         `json:"ns"` // does tc.namespaces[DefaultNamespace] exist (-1: not observed)
 }
 
 type trObs struct {
@@ -576,7 +578,7 @@ func trExec1(raw json.RawMessage) interface{} {
 	}
 	for _, it := range in.Hist {
 		if !it.IsSnap { // all watchers were attached before the first snapshot
-			st := trStep{Events: []trEvent{}, Log: []trObsCall{}, Live: []trEnt{}, Reg: []trEnt{}}
+			st := trStep{Events: []trEvent{}, Log: []trObsCall{}, Live: []trEnt{}, Reg: []trEnt{}, Ns: -1}
 			if it.Attach == observerIdx && !observerSeen {
 				observerSeen = true // NewWatcher's first event (received above, empty)
 				st.Events = append(st.Events, trEvent{W: observerIdx, Del: []trEnt{}, Cre: []trEnt{}, Upd: []trEnt{}})
@@ -637,6 +639,16 @@ func trExec1(raw json.RawMessage) interface{} {
 		})
 		step.Live = append(append(tags.ents(live), tags.ents(gates)...), tags.ents(ctls)...)
 		step.Reg = tags.ents(observer.Entities())
+		step.Ns = 0
+		if st, ok := tc.Status().ObjectStatus.(*trafficcontroller.Status); ok {
+			for _, sp := range st.Specs {
+				if sp.Namespace == DefaultNamespace {
+					step.Ns = 1
+				}
+			}
+		} else {
+			step.Ns = -1
+		}
 		obs.Steps = append(obs.Steps, step)
 	}
 	return obs
@@ -651,7 +663,7 @@ func trGen(r *verifh.Rand, i int) interface{} {
 	in := trInput{Cats: cats, Panics: []trPanic{}}
 	in.Watchers = []trWatcher{
 		{Cats: []int{1}, Consumer: true, NoEvents: true, PipeKinds: []int{0, 1}, CreateChecks: true},
-		{Cats: []int{3, 2}, Consumer: true, NoEvents: true, PipeKinds: []int{4}},
+		{Cats: []int{3, 2}, Consumer: true, NoEvents: true, PipeKinds: []int{4}, Namespaced: true},
 		{Cats: []int{}, All: true, PipeKinds: []int{}},
 	}
 	in.Hist = []trItem{{Attach: 0}, {Attach: 1}, {Attach: 2}}
